@@ -30,10 +30,23 @@ func TestZZVerifRoundTrip(t *testing.T) {
 	if K == 0 {
 		t.Skip("VERIF_C17_K not set")
 	}
-	alphabet := []byte{'a', ' ', '\t', '"', '\'', '/', '-', '$', 0xc3}
+	// line terminators inside an argument are ordinary content (only blank and tab separate);
+	// at the very end of an argument they are pkg-config's line end and are not generated
+	alphabet := []byte{'a', ' ', '\t', '"', '\'', '/', '-', '$', 0xc3, '\n', '\r'}
+	endsInLineEnd := func(flags []string) bool {
+		for _, f := range flags {
+			if n := len(f); n > 0 && (f[n-1] == '\n' || f[n-1] == '\r') {
+				return true
+			}
+		}
+		return false
+	}
 	checked := 0
 	var fail []string
 	check := func(flags []string) {
+		if endsInLineEnd(flags) {
+			return
+		}
 		s := zzJoin(flags)
 		got := SplitPkgConfigFlags(s)
 		checked++
